@@ -69,6 +69,11 @@ def gen_case(rng, idx, tier):
         A = {"U": [F(0), F(0), F(1), F(1), F(2), F(2)], "P": [[L[0] - 4, L[1] - 1], L, [L[0] + 1, L[1] + 5], [L[0] + 6, L[1] + 6]], "W": None}
         d = [F(rng.randint(1, 3)), F(rng.randint(-3, -1))]
         B = {"U": [F(0), F(0), F(1), F(1)], "P": [[L[0] - d[0], L[1] - d[1]], [L[0] + d[0], L[1] + d[1]]], "W": None}
+        if rng.random() < 0.5:
+            # ... or exactly at the first point of its right part, which is A(knot): that pair is a meeting point
+            R0 = A["P"][2]
+            B = {"U": [F(0), F(0), F(1), F(1)], "P": [[R0[0] - d[0], R0[1] - d[1]], [R0[0] + d[0], R0[1] + d[1]]], "W": None}
+            return {"kind": "bezier", "A": cv.enc_curve(A, "float"), "B": cv.enc_curve(B, "float"), "layout": "jump-start", "expect": [1.0, 0.5]}
         return {"kind": "bezier", "A": cv.enc_curve(A, "float"), "B": cv.enc_curve(B, "float"), "layout": "jump-end"}
     if r < 0.31:
         # the crossing sits at parameter 0 of both curves: transversal and interior (intervals straddling 0), or the common
@@ -236,6 +241,11 @@ def run_case(case, ctx):
             extra = [p for p in pairs if not any(math.dist(e, p) <= 1e-7 * (1 + abs(e[0]) + abs(e[1])) for e in exp)]
             ctx.check(not missing, "inter:missed-crossing:polylines", f"transversal crossings {missing} not returned (returned {pairs})")
             ctx.check(not extra, "inter:extra-pair:polylines", f"pairs {extra} are not crossings (expected {exp})")
+    elif case.get("layout") == "jump-start":
+        # B runs through the first point of the right part of a discontinuous polyline, transversally, at its own u = 1/2
+        ctx.count("expected_crossings")
+        e = case["expect"]
+        ctx.check(any(math.dist(p, e) <= 1e-6 for p in pairs), "inter:missed-crossing:jump-start", f"the crossing at A(knot) = first point of the right part, pair {e}, is not returned (returned {pairs})")
     elif kind == "circle":
         ang = math.radians(float(F(case["angle"])))
         R = float(F(case["radius"]))
